@@ -278,6 +278,8 @@ struct ProgCfg {
 	kind: Kind,
 	max_units: u64,
 	focus: usize,
+	/// multiplies the number of appends per block (wide MMRs) and the size of random removals
+	scale: u64,
 }
 
 #[derive(Default, Clone)]
@@ -554,7 +556,13 @@ fn check<T: Elem>(
 }
 
 /// Choose the leaves a block removes (indices < `below`, currently unspent).
-fn choose_removals<T: Elem>(m: &Model<T>, below: usize, pat: usize, prng: &mut Prng) -> Vec<usize> {
+fn choose_removals<T: Elem>(
+	m: &Model<T>,
+	below: usize,
+	pat: usize,
+	scale: u64,
+	prng: &mut Prng,
+) -> Vec<usize> {
 	let uns = m.unspent_idx(below);
 	if uns.is_empty() {
 		return vec![];
@@ -563,7 +571,7 @@ fn choose_removals<T: Elem>(m: &Model<T>, below: usize, pat: usize, prng: &mut P
 	let mut out: Vec<usize> = vec![];
 	match pat {
 		0 => {
-			let k = prng.range(1, 8) as usize;
+			let k = prng.range(1, 8 * scale) as usize;
 			let mut u = uns.clone();
 			prng.shuffle(&mut u);
 			out = u.into_iter().take(k).collect();
@@ -595,7 +603,7 @@ fn choose_removals<T: Elem>(m: &Model<T>, below: usize, pat: usize, prng: &mut P
 			}
 		}
 		3 => {
-			let h = prng.range(2, 4);
+			let h = prng.range(2, 4 + scale / 2);
 			let w = 1usize << h;
 			let n_sub = below / w;
 			if n_sub > 0 {
@@ -624,7 +632,7 @@ fn choose_removals<T: Elem>(m: &Model<T>, below: usize, pat: usize, prng: &mut P
 			let cand: Vec<(usize, usize)> = peaks
 				.iter()
 				.cloned()
-				.filter(|&(s, w)| w <= 32 && (s..s + w).any(|i| is_unspent(i)))
+				.filter(|&(s, w)| w <= 32 * scale as usize && (s..s + w).any(|i| is_unspent(i)))
 				.collect();
 			if !cand.is_empty() {
 				let (s, w) = *prng.pick(&cand);
@@ -704,7 +712,7 @@ fn program<T: Elem>(
 	let mut min_rewind = 0usize;
 	let mut last_cutoff_leaves = 0usize;
 	let units = prng.range((cfg.max_units / 3).max(1), cfg.max_units);
-	let max_leaves = 40 * cfg.max_units as usize;
+	let max_leaves = (40 * cfg.max_units * cfg.scale) as usize;
 	tr.op("open", "open".into());
 	check(&mut be, &m, 0, prunable, true, true, &mut prng, st)?;
 
@@ -714,10 +722,13 @@ fn program<T: Elem>(
 		let mut size = m.size();
 
 		// ---- optional rewind (always before any append of the unit, as in Extension::rewind)
+		// (the chain starts every extension with Extension::rewind to the fork point, which for a
+		// plain head extension is the no-op rewind at the head)
 		let mut rewound = false;
-		if m.cur() > 0 && prng.chance(30, 100) {
+		let real_rewind = m.cur() > 0 && prng.chance(30, 100);
+		if real_rewind || prng.chance(50, 100) {
 			let cur = m.cur();
-			let k = if prng.chance(10, 100) {
+			let k = if !real_rewind || prng.chance(10, 100) {
 				cur
 			} else if prng.chance(70, 100) {
 				cur.saturating_sub(prng.range(1, 3) as usize).max(min_rewind)
@@ -770,7 +781,7 @@ fn program<T: Elem>(
 				}
 				size = pmmr.unpruned_size();
 			}
-			if tr.compactions > 0 {
+			if tr.compactions > 0 && k < cur {
 				st.rewinds_after_compaction += 1;
 			}
 			// leaves re-added that a previous compaction had to keep (created at or before its cutoff)
@@ -785,7 +796,7 @@ fn program<T: Elem>(
 			}
 			readded = m.rewind_to(k);
 			st.readded += readded as u64;
-			rewound = true;
+			rewound = k < cur;
 			check(&mut be, &m, size, prunable, false, false, &mut prng, st)?;
 		}
 
@@ -799,8 +810,8 @@ fn program<T: Elem>(
 			let below = m.leaves.len();
 			let n_app = match prng.below(100) {
 				0..=9 => 0,
-				10..=93 => prng.range(1, 12),
-				_ => prng.range(13, 40),
+				10..=93 => prng.range(1, 12 * cfg.scale),
+				_ => prng.range(13 * cfg.scale, 40 * cfg.scale),
 			};
 			let mut spent: Vec<usize> = vec![];
 			let mut pat = 9;
@@ -825,7 +836,7 @@ fn program<T: Elem>(
 				st.appended += n_app;
 				if prunable {
 					pat = pick_pattern(cfg.focus, &mut prng);
-					spent = choose_removals(&m, below, pat, &mut prng);
+					spent = choose_removals(&m, below, pat, cfg.scale, &mut prng);
 					for &i in &spent {
 						let pos = m.pos_of(i);
 						match pmmr.prune(pos) {
@@ -984,7 +995,8 @@ fn size_class(n: u64) -> &'static str {
 		17..=64 => "<=64",
 		65..=256 => "<=256",
 		257..=1024 => "<=1024",
-		_ => ">1024",
+		1025..=4096 => "<=4096",
+		_ => ">4096",
 	}
 }
 
@@ -1045,6 +1057,7 @@ fn run_store_program(run: &Run, sc: &Scratch, cfg: &ProgCfg, totals: &Mutex<Tota
 			"kind": cfg.kind.name(),
 			"max_units": cfg.max_units,
 			"focus": cfg.focus,
+			"scale": cfg.scale,
 			"ops_total": tr.ops.len(),
 			"last_ops": tail,
 			"detail": detail,
@@ -1084,7 +1097,7 @@ fn run_store_program(run: &Run, sc: &Scratch, cfg: &ProgCfg, totals: &Mutex<Tota
 			println!("  {}", o);
 		}
 	}
-	let rewinds = st.rewinds_step + st.rewinds_aggr + st.rewinds_noop;
+	let rewinds = st.rewinds_step + st.rewinds_aggr;
 	let compactions = st.compact_removing + st.compact_noop;
 	let pats: Vec<&str> = (0..9).filter(|&i| st.patterns[i] > 0).map(|i| PATTERNS[i]).collect();
 	let sig = format!(
@@ -1098,7 +1111,7 @@ fn run_store_program(run: &Run, sc: &Scratch, cfg: &ProgCfg, totals: &Mutex<Tota
 	);
 	let nontrivial = st.units >= 3 && (rewinds > 0 || compactions > 0) && st.max_leaves > 8;
 	run.eval(&sig, nontrivial);
-	if cfg.idx % 97 == 3 || cfg.idx < 2 {
+	if [0u64, 1, 3, 24].contains(&cfg.idx) {
 		run.sample(json!({
 			"level": "store", "program": cfg.idx, "shape": sig, "units": st.units,
 			"leaves_max": st.max_leaves, "steps_checked": st.steps_checked,
@@ -1128,6 +1141,7 @@ fn prog_cfg(idx: u64, san: bool) -> ProgCfg {
 		kind,
 		max_units,
 		focus: ((idx / 8) % 8) as usize, // patterns 0..=7 forced in turn
+		scale: if !san && idx % 25 == 24 { 5 } else { 1 },
 	}
 }
 
@@ -1887,7 +1901,7 @@ fn main() {
 		"store level: program = random sequence of units on one PMMRBackend directory; unit = [optional rewind to an \
 		 earlier block boundary >= last compaction cutoff: block-by-block with each block's spent positions (as \
 		 Extension::rewind), or one call with the positions spent in the undone blocks and created at or before the \
-		 boundary, or a no-op rewind at the head] + 1..4 blocks (0..40 appends, then removals of leaves that existed \
+		 boundary, or (half of the other units) the no-op rewind at the head with which the chain starts every extension] + 1..4 blocks (0..40 appends, then removals of leaves that existed \
 		 before the block by one of the patterns random/sibling_pair/sibling_complete/subtree/peak/alternating/\
 		 last_leaf/respend_readded/all) + (sync | discard | drop-without-sync+reopen); between units \
 		 check_compact(cutoff = boundary, rewind_rm_pos = positions spent by the blocks after the cutoff), sometimes \
@@ -1927,6 +1941,7 @@ fn main() {
 				kind: Kind::from_name(case["kind"].as_str().unwrap_or("")),
 				max_units: case["max_units"].as_u64().unwrap_or(42),
 				focus: case["focus"].as_u64().unwrap_or(0) as usize,
+				scale: case["scale"].as_u64().unwrap_or(1).max(1),
 			};
 			println!("[C08] replaying store program {} ({})", idx, cfg.kind.name());
 			run_store_program(&run, &sc, &cfg, &totals, true);
@@ -1989,7 +2004,7 @@ fn main() {
 	// ---------------- evidence
 	let t = totals.lock().unwrap();
 	let st = &t.stats;
-	let rewinds = st.rewinds_step + st.rewinds_aggr + st.rewinds_noop;
+	let rewinds = st.rewinds_step + st.rewinds_aggr;
 	for (k, v) in [
 		("store_units", st.units),
 		("store_steps_checked", st.steps_checked),
@@ -2025,20 +2040,21 @@ fn main() {
 
 	let d = if is_san { 25 } else { 1 };
 	let q = |quick: u64, thorough: u64| -> u64 { run.tier.pick(quick, thorough) / d };
-	run.require("store programs (fixed, prunable)", *t.programs.get("fixed-prunable").unwrap_or(&0), q(200, 1000));
-	run.require("store programs (variable size, non-prunable)", *t.programs.get("variable-nonprunable").unwrap_or(&0), q(80, 400));
-	run.require("steps checked against the reference", st.steps_checked, q(20_000, 100_000));
-	run.require("compactions that removed data", st.compact_removing, q(500, 2500));
-	run.require("compactions with nothing to compact", st.compact_noop, q(50, 250));
-	run.require("compactions twice in a row", st.compact_twice, q(100, 500));
-	run.require("rewinds", rewinds, q(1000, 5000));
-	run.require("rewinds after a compaction", st.rewinds_after_compaction, q(400, 2000));
-	run.require("leaves re-added by rewind that a compaction had to keep", st.readded_protected, q(200, 1000));
-	run.require("drop/reopen", st.reopens + st.crash_reopens, q(1000, 5000));
-	run.require("discards", st.discards, q(800, 4000));
-	run.require("merkle proofs verified", st.proofs, q(200_000, 1_000_000));
+	run.require("store programs (fixed, prunable)", *t.programs.get("fixed-prunable").unwrap_or(&0), q(200, 4000));
+	run.require("store programs (variable size, non-prunable)", *t.programs.get("variable-nonprunable").unwrap_or(&0), q(80, 1600));
+	run.require("steps checked against the reference", st.steps_checked, q(20_000, 500_000));
+	run.require("compactions that removed data", st.compact_removing, q(500, 12_000));
+	run.require("compactions with nothing to compact", st.compact_noop, q(50, 1000));
+	run.require("compactions twice in a row", st.compact_twice, q(100, 5000));
+	run.require("rewinds to an earlier boundary", rewinds, q(1000, 30_000));
+	run.require("no-op rewinds at the head (start of a plain extension)", st.rewinds_noop, q(1000, 50_000));
+	run.require("rewinds after a compaction", st.rewinds_after_compaction, q(400, 15_000));
+	run.require("leaves re-added by rewind that a compaction had to keep", st.readded_protected, q(200, 8000));
+	run.require("drop/reopen", st.reopens + st.crash_reopens, q(1000, 30_000));
+	run.require("discards", st.discards, q(800, 30_000));
+	run.require("merkle proofs verified", st.proofs, q(200_000, 8_000_000));
 	for i in 0..8 {
-		run.require(&format!("spend pattern {}", PATTERNS[i]), st.patterns[i], q(150, 750));
+		run.require(&format!("spend pattern {}", PATTERNS[i]), st.patterns[i], q(150, 5000));
 	}
 	let started = run.counter("store_programs_started");
 	run.require(
@@ -2047,6 +2063,7 @@ fn main() {
 		started - started / 20,
 	);
 	if !is_san {
+		run.require("largest MMR (leaves)", st.max_leaves, run.tier.pick(1024, 2048));
 		let n_chain = n_chain as u64;
 		run.require("chain scenarios completed", run.counter("chain_scenarios_completed"), n_chain);
 		run.require(
